@@ -47,6 +47,7 @@ import subprocess
 from lib import core
 
 LEVEL = 'proof'
+BBH_FEATURES = ['tree']      # harness command families this check needs (fallback build, lib/core.py build_bbh)
 SIZES_Q = [(2, 2), (3, 2), (2, 3)]
 SIZES_T = [(4, 2), (2, 4)]
 LIMITS = list(range(1, 13)) + [20, 50, 100, 300]
